@@ -1,12 +1,99 @@
-"""Per-property plan: claimed level, what the run-time engine does, explanation and property-specific assumptions."""
+"""Per-property plan: claimed level, explanation of what decides it, property-specific trusted base and assumptions."""
 from __future__ import annotations
 
 PLAN = {}
 
+E3_RULE = ("E1/E2: one case per named obligation per interpreter configuration (distinct = distinct obligation names). "
+           "E3: one evaluation per (code object or generated input, check); distinct = distinct code objects (digest of bytecode, names and constant count) or distinct generated inputs; "
+           "an input is non-trivial when it is a compiled code object or a generated case that exercises the property's own clause (the generators contain no empty cases)")
+
 
 def plan(pid, level, explanation, **kw):
+    kw.setdefault("rule", E3_RULE)
     PLAN[pid] = dict(level=level, explanation=explanation, **kw)
 
 
-for _p in ["C%02d" % i for i in range(1, 17)]:
-    plan(_p, "other", "composition of deductively proved kernels (E1) with bounded checks (E2/E3); see DESIGN.md section 4")
+WF = ("WF(c): even-length co_code; operands index inside their tables; jump targets are instruction starts; argument counts fit co_varnames "
+      "(validated on every corpus code object by E3's oracles, never assumed silently)")
+
+plan("C01", "other",
+     "Lemma over contracts: operand bytes (parse/emit inverse for every 32-bit operand, E1), operand tables (decoder/encoder simulation step with key-duplicate entries, E1, induction over the "
+     "occurrence sequence is the meta-step), jump operands decode to their target (E1 fragment), header glue of to_code_data/from_code_data (E1 modular over a symbolic flag set), flags and "
+     "argument pairs inverse (E1), line-table stages inverse and sum-preserving (E1 with loop cut-points); the composed line pipeline is bounded symbolic (E2) and the whole API is checked "
+     "attribute-by-attribute on real 3.7-3.10 interpreters (E3).  Not a proof of the composition: bytes_to_blocks/blocks_to_bytes are covered by kernels, fragments and call-site contracts.",
+     assumptions=[WF], trusted_base=["CPython 3.7.16/3.8.18/3.9.18/3.10.13 as the oracle of E3 (compile, code attributes)"])
+plan("C02", "other",
+     "Every decoding step is stated against CPython's own reading: _parse_bytes = ceval's 32-bit operand folding (E1, all bytes), to_arg = dis classification and jump scaling per version over a "
+     "symbolic opcode (E1), found_index returns table[index] (E1), call sites of bytes_to_blocks pass opcode/arg/next_offset and tables in order and take the line of the first code unit (E1 "
+     "modular), collapse_items merge step neutral under CPython's reader (E1), per-offset lines of the pipeline equal the reader on assembler-model tables (E2); whole-function agreement with "
+     "dis.get_instructions and co_lines on real interpreters (E3).",
+     assumptions=[WF])
+plan("C03", "other",
+     "Encoder kernels proved (E1): FromArgs.add/__setitem__ abstract-view contract, jump update decodes to the target for both kinds and scalings, relaxation flag sticky, _instrsize is CPython's and "
+     "monotone, emission loop inverse to CPython's folding, constant_key keeps CPython-distinct constants distinct (floats/complex over all binary64 pairs), from_arg docstring slot as a complete "
+     "case analysis, expand_items sums/representability for unbounded deltas; to_tuple raise-or-exact and table seeding are bounded symbolic (E2); termination of the relaxation loop and the "
+     "whole encoder are checked on hand-built block graphs straddling the operand-width boundaries on real interpreters with dis/co_lines/inspect as oracle (E3).",
+     assumptions=["well-formed data: jump targets designate existing blocks, Freevar names occur in freevars, instruction names are opcodes of the interpreter, lines are ints on <= 3.9 (lnotab cannot express 'no line')"])
+plan("C04", "other",
+     "args_from_input equals CPython's co_varnames layout for all counts and all co_varnames lengths (E1, z3/cvc5 sequences, four flag cases), consumes exactly VARARGS/VARKEYWORDS (E1), round trip "
+     "with args_to_input (E1); docstring = first constant iff str (also the empty string), kind iff flag, type None iff neither function flag: to_code_data modular over a symbolic flag set (E1); "
+     "Args.parameters order/kinds and len(args) are bounded (E2, <= 2 names per group); agreement with inspect.signature / __doc__ / inspect.is*function on all signature shapes x scope kinds (E3).")
+plan("C05", "other",
+     "normalize postcondition per constructor with symbolic fields - every private field reset, every public field kept, recursively, idempotent (E1; structural induction is the meta-step) - plus "
+     "the encoder contracts of C03 (table seeding, docstring slot, jump update).  'Executing both gives the same results, output, exceptions and line events' quantifies over CPython's evaluation "
+     "loop, for which no contract is within reach: covered by the assumption that the VM depends only on the resolved instruction stream, tables and line map, and by a bounded stand-in (E3: "
+     "symbolic stream comparison on the corpus; execution with stdout capture and sys.settrace on 28 programs).")
+plan("C06", "other",
+     "Idempotence and per-constructor reset of normalize (E1), the private fields enumerated against dataclasses.fields (E1 finite), decode invariance under table permutation via found_index's "
+     "contract (E1); the history claim follows by induction from per-operation facts (C03 'equal up to normalization', C07 equality, idempotence) and is exercised on all histories up to length "
+     "2 (3 in the thorough tier) and on table-permuted / padded / CO_NESTED variants built with code.replace (E3).")
+plan("C07", "other",
+     "Tag-dispatch consistency of the constant codec per constructor with symbolic payloads: plain JSON out (ints within +-2^53, finite floats, valid text, string keys) and exact decode, NaNs "
+     "identified (E1, structural induction as meta-step; b64/literal_eval/int-str round trips are assumed contracts); every data-class position on representatives (E2); real json.dumps "
+     "(allow_nan=False)/loads cycle, independent jsonschema validation against JSON_SCHEMA and strict to_code comparison over corpus and edge-value grid x positions (E3).  Schema conformance is "
+     "bounded only.")
+plan("C08", "other",
+     "constant_key partition = CPython's constant-table partition with NaNs identified over all pairs of binary64 / complex / int values and across constructors (E1), Constant.__eq__ iff same "
+     "override and same key, __hash__ hashes exactly the pair __eq__ compares and never a NaN (E1), all data classes frozen with immutable field types (E1 static); equal data => identical code "
+     "and route pairs against ctypes _PyCode_ConstantKey are bounded (E3).",
+     assumptions=["builtin hash() respects == on tuples/str/bool/None/type objects/ints/non-NaN floats"])
+plan("C09", "proof",
+     "ToArgs.found_index on unbounded abstract tables: the recorded order is the first-use rank, an override is reported only if position != rank or an equal entry was found first at another index, "
+     "and in that second case the encoder without the override provably returns a different index (so the override is justified in the property's sense); parameters and a docstring (also an empty "
+     "one) are seeded as found first (call-site contract); additional_args yields exactly the never-found indices (inductive step on a generic index).  The property verbatim is additionally "
+     "evaluated on decoded corpora and canonical re-encodings (E3, bounded).",
+     assumptions=["induction over the operand occurrence sequence is a meta-step (base and step are machine-checked)"])
+plan("C10", "other",
+     "Stage contracts proved (E1): bytes<->items pointwise inverse, expand_items preserves cumulative deltas, emits only representable entries, no-line sections emit only -128 and lined ones never, "
+     "for unbounded deltas (loop cut-points, ghost sums); collapse_items merge step neutral under CPython's reader.  The full pipeline equals the reader at every offset and re-encodes byte for byte "
+     "on assembler-model tables with symbolic line deltas within stated bounds (E2); concrete sweeps through from_code/to_code on real code objects carrying the table, with co_lines / "
+     "PyCode_Addr2Line as oracle (E3).  The assembler transcriptions are validated against the compiler on every corpus table.")
+plan("C11", "proof",
+     "For every 32-bit flag word (bit-vector): to_flags_data raises iff a bit outside the interpreter's defined flags is set, otherwise from_flags_data(to_flags_data(f)) == f; to_code_data returns "
+     "only if every flag was consumed into a field (modular, all subsets of the defined flags) and from_code_data rebuilds exactly that set and passes the counts through; the header round-trip "
+     "lemma composes the two.  The assumed contract of enum._decompose and the whole statement are also enumerated exhaustively on the real interpreters (E3: all 2^18 subsets in the thorough tier).",
+     assumptions=["contract of enum._decompose (members whose bit is contained in the value; uncovered bits) - validated exhaustively by E3",
+                  "rule 6 (generic-element rule) for the two accumulate-only member loops, side condition checked syntactically"])
+plan("C12", "proof",
+     "Static frame pass: every store site (subscript/attribute store, del, in-place operator, mutator call, call of a callee that modifies an argument) in the closure of from_code, to_code, "
+     "normalize, to_json_data, from_json_data writes to an object allocated in the same call or to a parameter its contract lists; no caching decorator, global statement or store to module "
+     "state (repeatability = determinism + empty frame).  Deep snapshots over repeated and interleaved calls are the bounded stand-in and the replay vehicle (E3).",
+     assumptions=["the abstract interpretation's allocation/alias rules and the immutability of annotated scalar fields (mypy-clean library)"])
+plan("C13", "other",
+     "Block-building loop of bytes_to_blocks as an extracted fragment cut at its head over a symbolic-length instruction sequence: a block opens exactly at target offsets, no block is empty, the "
+     "count equals the number of target offsets, no UnboundLocalError/ValueError path is feasible (E1); targets_set = {0} + every decoded jump target (E1 syntactic + to_arg contract); the step "
+     "'every target is an instruction start' rests on WF and is checked against the target set computed from dis on corpora (E3).",
+     assumptions=[WF])
+plan("C14", "other",
+     "CodeData.__iter__ / all_code_data on every arrangement of operand kinds over bounded shapes and nesting depth 3 (E2); agreement with a recursive walk of co_consts, including dead inner "
+     "definitions, and equality with the stand-alone decoding of each nested code object on corpora (E3); no hidden state between decodes (E1 static, soft).")
+plan("C15", "other",
+     "Static reads-frame: the closure of the JSON codec and normalize references no interpreter-dependent name and imports only the data classes (E1, soft: a sufficient condition); documents "
+     "written under each of 3.7-3.10 are loaded, re-dumped and normalized under each of 3.7-3.13 and compared canonically (E3).",
+     e3_versions=[])
+plan("C16", "other",
+     "main verified modularly by a complete finite case split: 3^4 source-option shapes x 2^5 flag sets with stubbed externals carrying contracts and a ghost output log (E1, no solver needed): "
+     "usage error iff not exactly one source is given, printed object = normalize(from_code(code)) or un-normalized, JSON = to_json_data of the same object, --dis-after disassembles its "
+     "to_code(); real subprocess runs on each interpreter with stdout parsed back (E3).",
+     e3_jobs=1)
+PLAN["C15"]["e3"] = False     # the orchestration in pcv/custom.py runs producers and consumers itself
